@@ -94,7 +94,8 @@ func (a *Agents) Begin(label string, bid, fi int, path string) (string, *CheckRe
 	if ar.Code == "" {
 		return "", rec
 	}
-	cb := f.Spec.CallbackPath + "?code=" + qEsc(ar.Code) + "&state=" + qEsc(ar.Param("state"))
+	_, _, cp, _ := splitURL(f.Spec.CallbackURI())
+	cb := cp + cbSep(cp) + "code=" + qEsc(ar.Code) + "&state=" + qEsc(ar.Param("state"))
 	a.LastCB[key(bid, fi)] = cb
 	return cb, rec
 }
@@ -221,6 +222,8 @@ func (a *Agents) Exec(op *Op) bool {
 	case "crash":
 		w.CrashRestart()
 		w.logf("crash-restart")
+	case "cb":
+		return a.execCB(op)
 	case "par":
 		a.Par(op.Par)
 	default:
@@ -315,4 +318,93 @@ func (p *IdP) Rotate(publish, keepOld bool) {
 		}
 	}
 	p.Rotations++
+}
+
+// execCB delivers a (possibly forged, swapped or replayed) callback.
+// Args: code = own | of:N | forged ; state = own | of:N | forged | near | upper ; variant = "" | reorder |
+// dup-state-forged-first | dup-state-own-first | dup-code | case | empty | extra | missing-code | missing-state | fragment
+// S = cookie mode.
+func (a *Agents) execCB(op *Op) bool {
+	f := a.w.Filters[op.F]
+	authOf := func(spec string) *AuthReq {
+		if strings.HasPrefix(spec, "of:") {
+			n, _ := strconv.Atoi(spec[3:])
+			return a.LastAuth[key(n, op.F)]
+		}
+		return a.LastAuth[key(op.B, op.F)]
+	}
+	code, state := "forged-code-000", "forgedstate0000000000000000000000"
+	switch cs := op.Args["code"]; {
+	case cs == "forged":
+	default:
+		ar := authOf(cs)
+		if ar == nil || ar.Code == "" {
+			return false
+		}
+		code = ar.Code
+	}
+	switch ss := op.Args["state"]; {
+	case ss == "forged":
+	default:
+		base := ss
+		if ss == "near" || ss == "upper" {
+			base = "own"
+		}
+		ar := authOf(base)
+		if ar == nil || ar.Param("state") == "" {
+			return false
+		}
+		state = ar.Param("state")
+		if ss == "near" {
+			b := []byte(state)
+			if b[len(b)-1] == 'x' {
+				b[len(b)-1] = 'y'
+			} else {
+				b[len(b)-1] = 'x'
+			}
+			state = string(b)
+		} else if ss == "upper" {
+			state = strings.ToUpper(state)
+		}
+	}
+	_, _, cp, _ := splitURL(f.Spec.CallbackURI())
+	sep := cbSep(cp)
+	c, s := "code="+qEsc(code), "state="+qEsc(state)
+	var q string
+	switch op.Args["variant"] {
+	case "reorder":
+		q = s + "&" + c
+	case "dup-state-forged-first":
+		q = "state=forgedstate0000000000000000000000&" + s + "&" + c
+	case "dup-state-own-first":
+		q = s + "&state=forgedstate0000000000000000000000&" + c
+	case "dup-code":
+		q = c + "&code=forged-code-000&" + s
+	case "case":
+		q = "Code=" + qEsc(code) + "&State=" + qEsc(state)
+	case "empty":
+		q = "code=&state="
+	case "extra":
+		q = c + "&" + s + "&session_state=abc&iss=https%3A%2F%2Fidp"
+	case "missing-code":
+		q = s
+	case "missing-state":
+		q = c
+	case "fragment":
+		q = c + "&" + s + "#frag"
+	default:
+		q = c + "&" + s
+	}
+	rec := a.Raw("cb:"+op.Args["code"]+"/"+op.Args["state"]+"/"+op.Args["variant"], op.B, op.F, cp+sep+q, op.S)
+	if rec != nil {
+		for _, sp := range rec.Spy {
+			if sp.Method == "GetAuthorizationState" {
+				a.w.probe("crafted-callback-reached-state-lookup")
+			}
+		}
+		if len(rec.TokenReqs) > 0 {
+			a.w.probe("crafted-callback-reached-token-endpoint")
+		}
+	}
+	return rec != nil
 }
